@@ -143,7 +143,7 @@ def c09_jobs(tier):
 
 
 def c06_jobs(tier):
-    jobs = [sim("c06-wake", "c06", require_counters=["quiescent_points_with_waiter", "wakeups_by_publish", "wakeups_by_nack", "wakeups_by_expiry", "hand_on_wakeups", "cancelled_in_the_instant_of_notify", "cancel_with_saturated_mailbox"]),
+    jobs = [sim("c06-wake", "c06", require_counters=["quiescent_points_with_waiter", "wakeups_by_publish", "wakeups_by_nack", "wakeups_by_expiry", "hand_on_wakeups", "cancelled_in_the_instant_of_notify", "cancel_with_saturated_mailbox", "nacks_in_mixed_control_message"]),
             sim("c06-wake-noyield", "c06", params={"yields": 0})]
     if tier == "thorough":
         jobs.append(sim("c06-wake-h2", "c06", transport="h2"))
@@ -160,7 +160,7 @@ def c10_jobs(tier):
 
 
 def c11_jobs(tier):
-    jobs = [sim("c11-walk", "c11", require_counters=["cross_view_checks", "recreations_with_cross_view"])]
+    jobs = [sim("c11-walk", "c11", require_counters=["cross_view_checks", "recreations_with_cross_view", "create_delete_races", "abandoned_control_requests"])]
     if tier == "thorough":
         jobs.append(sim("c11-walk-h2", "c11", transport="h2"))
     return jobs
